@@ -18,7 +18,7 @@ from .sched import SimAbort
 
 class Pipe:
     """Bytes flowing to one endpoint."""
-    __slots__ = ('inflight', 'buf', 'fin_sent', 'eof', 'rst', 'delivered', 'written')
+    __slots__ = ('inflight', 'buf', 'fin_sent', 'eof', 'rst', 'delivered', 'written', 'rst_pending')
 
     def __init__(self):
         self.inflight = bytearray()
@@ -26,6 +26,7 @@ class Pipe:
         self.fin_sent = False    # writer has closed; EOF follows the in-flight bytes
         self.eof = False         # EOF is visible to the reader (after buf is drained)
         self.rst = False
+        self.rst_pending = False  # a reset arrived behind data that was already delivered (readable first: Linux)
         self.delivered = 0
         self.written = 0
 
@@ -79,9 +80,14 @@ class SimNet:
         if pipe.fin_sent and not pipe.inflight:
             pipe.eof = True
 
-    def reset(self, pipe):
-        pipe.rst = True
+    def reset(self, pipe, keep_delivered=False):
+        """Connection reset. Bytes still in flight are gone. What had already been delivered is either discarded
+        too (BSD) or stays readable, the error showing once it has been read (Linux): keep_delivered."""
         del pipe.inflight[:]
+        if keep_delivered and pipe.buf:
+            pipe.rst_pending = True
+            return
+        pipe.rst = True
         del pipe.buf[:]
 
     # -- socket module surface
@@ -108,6 +114,9 @@ class SimFile:
             data = bytes(rx.buf[:k])
             del rx.buf[:k]
             return data
+        if rx.rst_pending:
+            rx.rst = True
+            raise ConnectionResetError(104, 'Connection reset by peer')
         if rx.eof:
             return b''
         # a blocking read with nothing to read: in a single-threaded history this is a hang
@@ -121,8 +130,10 @@ class SimFile:
             raise ValueError('I/O operation on closed file')
         tx = s.tx
         peer = s.peer
-        if tx.rst or (s.rx is not None and s.rx.rst):
+        if tx.rst or (s.rx is not None and (s.rx.rst or s.rx.rst_pending)):
             raise ConnectionResetError(104, 'Connection reset by peer')
+        if tx.fin_sent:
+            raise BrokenPipeError(32, 'Broken pipe')        # our sending direction was shut down
         if peer is not None and peer.really_closed:
             # TCP: the first write after the peer went away is accepted and answered with RST,
             # the next one fails with EPIPE
@@ -251,6 +262,22 @@ class SimSocket:
         self.peer_addr = tuple(addr)
         lst.accept_queue.append(srv)
 
+    def shutdown(self, how):
+        """Like the real call: fails with ENOTCONN once the connection was reset (or never existed), otherwise
+        ends the chosen direction(s) without releasing the descriptor."""
+        self.net.pump()
+        if self.really_closed or self.tx is None:
+            raise OSError(9 if self.really_closed else 107, 'Bad file descriptor' if self.really_closed
+                          else 'Transport endpoint is not connected')
+        if (self.rx is not None and (self.rx.rst or self.rx.rst_pending)) or self.tx.rst:
+            raise OSError(107, 'Transport endpoint is not connected')
+        if how in (1, 2) and not self.tx.fin_sent:
+            tx = self.tx
+            tx.fin_sent = True
+            net = self.net
+            net.at(net.clock.now + self.close_latency, lambda: net.deliver(tx))
+        self.net.count('shutdown')
+
     def makefile(self, mode='r', buffering=None, **kw):
         self._io_refs += 1
         f = SimFile(self, mode)
@@ -269,7 +296,7 @@ class SimSocket:
         rx = self.rx
         if rx is None:
             return False
-        return bool(rx.buf) or rx.eof or rx.rst
+        return bool(rx.buf) or rx.eof or rx.rst or rx.rst_pending
 
     def close(self):
         self._closed = True
@@ -295,6 +322,11 @@ class SocketShim:
     SOCK_STREAM = 1
     SOL_SOCKET = 1
     SO_REUSEADDR = 2
+    SHUT_RD = 0
+    SHUT_WR = 1
+    SHUT_RDWR = 2
+    error = OSError
+    timeout = TimeoutError
 
     def __init__(self, net):
         self.net = net
